@@ -67,11 +67,13 @@ func solvePhase(obls []*Obligation, dir string, timeout int, withAxioms bool) fl
 	}
 	var jobs []job
 	for _, o := range obls {
+		Progress = "printing " + o.Name
 		var asserts []*Term
 		if o.Cover {
 			asserts = []*Term{o.Hyp, o.Goal}
 		} else {
-			asserts = []*Term{o.Hyp, Not(o.Goal)}
+			h, g := prepareQuantified(o.Hyp, o.Goal)
+			asserts = []*Term{h, Not(g)}
 			if withAxioms {
 				asserts = append(asserts, o.Axioms...)
 			}
@@ -94,7 +96,15 @@ func solvePhase(obls []*Obligation, dir string, timeout int, withAxioms bool) fl
 			finishStatus(o)
 			continue
 		}
+		tp := time.Now()
 		script := SMTScript(asserts, !o.Cover, "; obligation "+o.Name+"\n; source "+o.Pos+"\n; clause "+strings.ReplaceAll(o.Src, "\n", " ")+"\n")
+		if os.Getenv("GOVC_TRACE") != "" {
+			fmt.Fprintf(os.Stderr, "printed %s: %d bytes in %v\n", o.Name, len(script), time.Since(tp))
+			if len(script) > 1<<20 {
+				os.WriteFile("/tmp/big.smt2", []byte(script), 0o644)
+				os.Exit(4)
+			}
+		}
 		if len(script) > 8<<20 {
 			o.Result = SolveResult{Status: "error", Output: fmt.Sprintf("VC too large (%d bytes)", len(script))}
 			finishStatus(o)
@@ -172,7 +182,7 @@ func GenerateProp(pr *Program, prop string, onlyFunc string) *PropResult {
 		if onlyFunc != "" && !strings.Contains(c.FuncName, onlyFunc) {
 			continue
 		}
-		if c.Trusted {
+		if c.Trusted || c.IsPred {
 			continue
 		}
 		if c.IsLemma {
